@@ -228,8 +228,8 @@ func main() {
 			for i, la := range tmrun.Layouts {
 				for j, lb := range tmrun.Layouts {
 					// quick: the date/time-of-day layouts 3..6 pairwise; the fractional
-					// layouts 7.. paired with each other; a tenth of the rest
-					always := (i >= 3 && j >= 3 && i < 7 && j < 7) || (i >= 7 && j >= 7)
+					// layouts 7.. paired with each other (in two of the four zones); a tenth of the rest
+					always := (i >= 3 && j >= 3 && i < 7 && j < 7) || (i >= 7 && j >= 7 && zone%2 == 0)
 					if i == j || (!a.Thorough() && !always && !rng.Chance(10)) {
 						continue
 					}
